@@ -590,6 +590,30 @@ let () =
                     if dj then judge k ("answered is_disjoint " ^ !witness) (empty_meet dim (restrict mx [] [g]));
                     if inc then judge k ("answered is_included " ^ !witness) (incl_meet dim mx (restrict universe [] [g]));
                     if not (dj || inc) then bump "answer-indefinite"
+                  | "relation_with_gen" ->
+                    (* subsumes: adding the generator does not change the product.  A point must belong to the intersection
+                       (closure points: to its closure -- not judged); a ray / line must keep every point of the intersection inside *)
+                    let gk = next c in let dv = nextz c in let co = take_z c dim in
+                    if ansb () then begin
+                      (match gk with
+                       | "p" ->
+                         let pt = List.map (fun n -> qdiv_z (inject_Z n) dv) co in
+                         incr checks; incr nt;
+                         if not (mem_meet mx pt) then fail k ("answered subsumes, the point " ^ string_of_pt pt ^ " is not in the intersection"
+                           ^ (if not (mem_comp x.c1 pt) then " (outside component 1)" else "") ^ (if not (mem_comp x.c2 pt) then " (outside component 2)" else ""))
+                       | "r" | "l" ->
+                         let dir = List.map inject_Z co in
+                         incr sampled;
+                         (match timed (fun () -> samples_of dim mx) None with
+                          | None -> incr checks; undec k
+                          | Some pts ->
+                            let ts = if gk = "r" then [q_of_int 1; q_of_int 3; q_half 1] else [q_of_int 1; q_of_int (-1); q_of_int 4; q_half (-3)] in
+                            let bad = ref None in
+                            List.iter (fun p -> List.iter (fun t -> incr sample_points;
+                              let p' = vadd p (vscale t dir) in if !bad = None && not (mem_meet mx p') then bad := Some (p, p')) ts) pts;
+                            judge k (match !bad with Some (p, p') -> "answered subsumes, but " ^ string_of_pt p ^ " is in the intersection and " ^ string_of_pt p' ^ " is not" | None -> "") (Some (!bad = None)))
+                       | _ -> bump "not-judged")
+                    end else bump "answer-indefinite"
                   | "maximize" | "minimize" ->
                     let e = read_expr c dim in
                     expect r "opt";
